@@ -203,6 +203,12 @@ def history(ctx, rng, desc, hid):
                 cmaps["B"].subscribe()
                 listeners.remove("B")
                 ctx.case((f"{pk}->{ck}", "readdress"), nontrivial=True)
+            elif r < 0.90:
+                # subscribing a map again (as read() followed by save() does) must not duplicate delivery
+                name = rng.choice(["A", "B", "C", "D"])
+                ops.append(("resubscribe", name))
+                cmaps[name].subscribe()
+                ctx.case((f"{pk}->{ck}", "resubscribe", cmaps[name].enabled), nontrivial=True)
             elif r < 0.93:
                 # unrelated traffic must not touch any map
                 before = snapshot()
